@@ -305,6 +305,24 @@ def p_decode_utf8_stateful(ex, st, args, kwargs, node):
                 yield lit(""), s3
 
 
+def inner_call_contract(tag):
+    """_Quoter._do_quote_or_skip / _Unquoter._do_unquote seen from __call__: the result is *the*
+    result of that method on these arguments (an opaque function of the instance and the text; the
+    method has its own contract), or MemoryError for the quoter"""
+    def fn(ex, st, args, kwargs, node):
+        from .engine import Raised
+        from .lib import _memo, _skey
+        self_, val = args[0], args[1]
+        if not isinstance(val, VStr):
+            raise Unsupported(f"{tag} applied to a non-str")
+        key = ("inner-call", tag, id(getattr(self_, "obj", self_))) + _skey(val)
+        m = _memo(st.ctx)
+        if key not in m:
+            m[key] = V.fresh_str(st.ctx, tag)
+        yield m[key], st
+    return fn
+
+
 def install(ex, mod):
     from .engine import Prim
     reg = ex.native_by_id
